@@ -21,7 +21,7 @@ def _through_text(node):
     return node
 
 
-def hop(fmt, ir, style="rest", emit_default_doc=False, type_annotations=True, kwonly=False, keep_prose=False):
+def hop(fmt, ir, style="rest", emit_default_doc=False, type_annotations=True, kwonly=False, keep_prose=False, word_wrap=False):
     """one emit -> (text in replay) -> parse hop; exceptions propagate"""
     import cdd.docstring.utils.parse_utils as pu
 
@@ -31,33 +31,33 @@ def hop(fmt, ir, style="rest", emit_default_doc=False, type_annotations=True, kw
             import cdd.class_.emit
             import cdd.class_.parse
 
-            node = cdd.class_.emit.class_(ir, class_name="C", word_wrap=False, docstring_format=style, emit_default_doc=emit_default_doc)
+            node = cdd.class_.emit.class_(ir, class_name="C", word_wrap=word_wrap, docstring_format=style, emit_default_doc=emit_default_doc)
             return cdd.class_.parse.class_(_through_text(node))
         if fmt == "pydantic":
             import cdd.pydantic.emit
             import cdd.pydantic.parse
 
-            node = cdd.pydantic.emit.pydantic(ir, class_name="C", word_wrap=False, docstring_format=style, emit_default_doc=emit_default_doc)
+            node = cdd.pydantic.emit.pydantic(ir, class_name="C", word_wrap=word_wrap, docstring_format=style, emit_default_doc=emit_default_doc)
             return cdd.pydantic.parse.pydantic(_through_text(node))
         if fmt == "function":
             import cdd.function.emit
             import cdd.function.parse
 
-            node = cdd.function.emit.function(ir, function_name="f", function_type="static", word_wrap=False, docstring_format=style,
+            node = cdd.function.emit.function(ir, function_name="f", function_type="static", word_wrap=word_wrap, docstring_format=style,
                                               emit_default_doc=emit_default_doc, type_annotations=type_annotations, emit_as_kwonlyargs=kwonly)
             return cdd.function.parse.function(_through_text(node))
         if fmt == "argparse":
             import cdd.argparse_function.emit
             import cdd.argparse_function.parse
 
-            node = cdd.argparse_function.emit.argparse_function(ir, function_name="set_cli_args", word_wrap=False, docstring_format=style,
+            node = cdd.argparse_function.emit.argparse_function(ir, function_name="set_cli_args", word_wrap=word_wrap, docstring_format=style,
                                                                 emit_default_doc=emit_default_doc)
             return cdd.argparse_function.parse.argparse_ast(_through_text(node))
         if fmt == "docstring":
             import cdd.docstring.emit
             import cdd.docstring.parse
 
-            text = cdd.docstring.emit.docstring(ir, docstring_format=style, word_wrap=False, emit_default_doc=True, emit_types=True)
+            text = cdd.docstring.emit.docstring(ir, docstring_format=style, word_wrap=word_wrap, emit_default_doc=True, emit_types=True)
             return cdd.docstring.parse.docstring(text, emit_default_doc=not not keep_prose)  # keep_prose: the parser's own default (the 'Defaults to' prose stays in the description)
         if fmt == "docstring_notypes":  # the docstring emitter's default: types are NOT written; the parser infers them from the defaults
             import cdd.docstring.emit
